@@ -278,6 +278,27 @@ def o_pbpsi(s, ctx, v, out):
         v.bad('wrong-intersection', 'm=%d n=%d overlap=%d: output mask %x, length %d' % (m, n, ov, s.out['inter'], s.out['interlen']))
 
 
+def o_rsapsi(s, ctx, v, out):
+    sets = [l for l in s.lines if l.startswith('SETS ')]
+    if not sets:
+        return
+    d = P.kvs(sets[0].split())
+    m, n, ov = int(d['m']), int(d['n']), int(d['ov'])
+    ch = [f for f in s.m if s.changed(f)]
+    if ch:
+        out.fault('query-or-answer-altered')
+    if 'inter' not in s.out:
+        if not ch and ('server-refused-query' in s.notes or 'client-refused-answer' in s.notes or any(x[0] != '0' for x in s.rc.get('int', []))):
+            v.bad('intersection-failed', 'nothing was altered but the protocol did not complete (m=%d n=%d)' % (m, n))
+        return
+    out.evals += 1
+    out.keys.add((s.scheme, m, n, ov, d.get('bits'), bool(ch)))
+    if ch:
+        return              # an altered query or answer may lose matches; nothing is asserted beyond termination
+    if s.out['inter'] != (1 << ov) - 1 or s.out['interlen'] != ov:
+        v.bad('wrong-intersection', 'm=%d n=%d overlap=%d: output mask %x, length %d' % (m, n, ov, s.out['inter'], s.out['interlen']))
+
+
 def o_ped(s, ctx, v, out):
     n = ctx['param']['n']
     if 'open' not in s.ver:
@@ -334,6 +355,10 @@ SCHEMES.update({
     'pbpsi': Spec('C06', 4, dict(), o_pbpsi, pc=True, weight=6,
                   opts=lambda rng: dict(k=rng.below(5), n=rng.below(5), cls=rng.below(5))),
     'ped': Spec('C06', 4, dict(c='ec', r='bn', x='bn'), o_ped),
+    'rsapsi': Spec('C06', 4, dict(d='bn', t0='bn', u0='bn', t1='bn', u1='bn'), o_rsapsi, weight=5,
+                   opts=lambda rng: dict(k=rng.below(5), n=rng.below(5), cls=rng.below(5), dup=rng.below(3), klen=rng.below(200))),
+    'shipsi': Spec('C06', 4, dict(d='bn', t0='bn', t1='bn', u='bn'), o_rsapsi, weight=5,
+                   opts=lambda rng: dict(k=rng.below(5), n=rng.below(5), cls=rng.below(5), dup=rng.below(3), klen=rng.below(200))),
 })
 
 
